@@ -3,6 +3,7 @@
 -/
 import PigeonVerif.Proofs.TermProof
 import PigeonVerif.Proofs.FuelMono
+import PigeonVerif.Proofs.TermMemo
 
 namespace PV
 namespace RT
@@ -93,10 +94,41 @@ theorem C16_parse_total (E : Env) (n : Nat) (hn : E.opts.maxExpr = some n) (hmz 
     (fuel : Nat) (hf : n + 2 ≤ fuel) : parse E fuel = parse E (n + 2) ∧ parse E (n + 2) ≠ .oof :=
   ⟨parse_mono E hf (C16_terminates E n hn hmz (n + 2) (Nat.le_refl _)), C16_terminates E n hn hmz (n + 2) (Nat.le_refl _)⟩
 
-/-- The full statement of C16 quantifies over Memoize as well. It is FALSE for the unchanged
-    code with `Memoize(true)` (finding D15: a memo hit is not charged, so `("a"?)*` spins on cache
-    hits); see `C16_D15_witness` in Properties/Witnesses.lean. -/
-theorem C16_terminates_partial : True := trivial
+/-- **C16 (g)** Termination under EVERY combination of the other runtime options: with
+    `MaxExpressions(n)` every parse returns, Memoize on or off (and Debug, Statistics, Recover,
+    AllowInvalidUTF8, entrypoints, all template switches, left recursion): fuel `2n + 2` suffices.
+    The measure is `exprCnt + memoHits`: an evaluation charges the first, a memo hit the second
+    (Proofs/TermMemo.lean). Before the repair of finding D15 (memo hits were free) this statement
+    was false: `("a"?)*` with Memoize spun on cache hits for ever. -/
+theorem C16_terminates_any_options (E : Env) (n : Nat) (hn : E.opts.maxExpr = some n) (fuel : Nat)
+    (hf : 2 * n + 2 ≤ fuel) : parse E fuel ≠ .oof := by
+  intro h
+  unfold parse at h
+  simp only [] at h
+  split at h
+  · simp at h
+  · split at h
+    · simp at h
+    · next r _ =>
+      have hrec : RecOK2 E (parseExpr E fuel) n 0 :=
+        ⟨parseExpr_frame E fuel, fun e s v ok s' hm h => parseExpr_strict E fuel e s s' v ok hm h,
+         parseExpr_hits E n hn fuel,
+         fun e s hm _ hb hh => parseExpr_term2 E n hn fuel e s hm (by omega) hb hh⟩
+      have hcnt : (startState E).exprCnt = 0 := by simp [startState, initState]
+      have hhit : (startState E).memoHits = 0 := by simp [startState, initState]
+      have := ruleWrap_term2 hn hrec fuel r (startState E) (read_memo_ok E)
+        (Nat.zero_le _) (by omega) (by omega) (by omega)
+      revert this h
+      generalize parseRuleWrap E (parseExpr E fuel) fuel r (startState E) = o
+      cases o with
+      | oof => intro _ h; exact absurd rfl h
+      | panic p s => simp only [finish]; split <;> simp
+      | done v ok s => simp only [finish]; split <;> (try split) <;> simp
+
+/-- ... hence the parse is a total function of grammar, options and input under any budget -/
+theorem C16_parse_total_any_options (E : Env) (n : Nat) (hn : E.opts.maxExpr = some n) (fuel : Nat)
+    (hf : 2 * n + 2 ≤ fuel) : parse E fuel = parse E (2 * n + 2) ∧ parse E (2 * n + 2) ≠ .oof :=
+  ⟨parse_mono E hf (C16_terminates_any_options E n hn _ (Nat.le_refl _)), C16_terminates_any_options E n hn _ (Nat.le_refl _)⟩
 
 end RT
 end PV
